@@ -119,7 +119,7 @@ HELPER_AWARE = {'CAPACITY', 'IN-RANGE', 'INDEX-COVER', 'INDEX-SYNC', 'WINDOW-FOR
 
 
 # obligations decided on the flat view of a function (rules/inline.py: flat), which contains the bodies of all its helpers
-HELPER_AWARE_ARMS = {'build-level', 'end-gap', 'cover', 'deleted-set', 'upper-in-window', 'upper_bound', 'G9', 'order', 'contains-deref'}
+HELPER_AWARE_ARMS = {'build-level', 'end-gap', 'cover', 'deleted-set', 'upper-in-window', 'upper_bound', 'G9', 'order', 'contains-deref', 'G6'}
 
 
 def unknown_helpers(fn):
